@@ -73,7 +73,7 @@ int snoopy_filter_exclude_uid (char const * const arg)
         uid_t  argCurUid; // Actual UID to be used for comparison
 
         // Convert literal UID to numeric type
-        argCurUid = (uid_t) atol(argParsed[i]);
+        argCurUid = (uid_t) strtoull(argParsed[i], NULL, 10);   // Not atol(): long has 32 bits on some targets and saturates at 2^31-1
 
         // If UID matches, drop the message
         if (argCurUid == curUid) {
